@@ -91,6 +91,11 @@ def run(ctx):
             inp["first_failing_level"] = attained + 1
             inp["largest_residual"] = float(Fr(worst)) if worst != "bad-op" else None
             inp["measured"] = measure(cls, order)
+        # the enumeration the checker ran over: one tree per isomorphism class (OEIS A000081; for the alternating bicoloured
+        # trees of a splitting scheme two per class - the colour of the root)
+        A81 = [1, 1, 2, 4, 9, 20, 48, 115, 286, 719, 1842, 4766, 12486, 32973]
+        sizes = [int(v) for v in ot[-1].split(",") if v]
+        ctx.corr("tree-enumeration-count", sizes == [(2 if is_split(cls) else 1) * v for v in A81[:len(sizes)]], dict(method=name, level_sizes=sizes))
         ctx.oracle("declared-order", attained >= pm and aux_ok, inp, key="order:" + name,
                    what="%s declares order %d but its coefficients satisfy the order conditions only up to order %d "
                         "(largest residual at order %d: %s)" % (name, order, attained, attained + 1, inp.get("largest_residual")))
